@@ -232,7 +232,11 @@ def front_stream(ctx):
             if kind == "timeout-unretried":
                 continue      # same site already confirmed 3 times in this run; counted, not reported again
             key = "front:%s:%s:%s" % (stage, kind, site)
-            if kind == "fatal" and ("stack overflow" in msg or "stack exceeds" in msg):
+            if site.endswith("~rec"):
+                # runaway recursion: whether it ends in the CPU watchdog or in Go's stack overflow, and in which
+                # frame, depends on timing; the class is named by the recursion cycle (harness: recursionSite)
+                key = "front:%s:recursion:%s" % (stage, site[:-4])
+            elif kind == "fatal" and ("stack overflow" in msg or "stack exceeds" in msg):
                 key += ":stack-overflow"      # unbounded recursion (not recoverable), as opposed to a panic in a goroutine of the checker
             what = ("%s: %s in stage %s at %s%s" % (case[:200], "does not terminate (CPU budget exceeded twice, the second time alone in a fresh process with three times the budget)"
                                                       if kind == "timeout" else "kills the process", stage, site, (": " + msg) if msg else ""))
